@@ -383,69 +383,3 @@ Proof.
     unfold ro_text, sp. cbn [app]. reflexivity.
 Qed.
 
-(* ================= schemas of structs, messages and enums ================= *)
-Inductive sdefn :=
-| SStruct (nm : ident) (fl : list (ident * ident)) (blank : nat)
-| SReadonly (nm : ident) (fl : list (ident * ident)) (blank : nat)
-| SMessage (nm : ident) (fl : list mfdef) (blank : nat)
-| SEnum (nm : ident) (ml : list edef) (blank : nat).
-
-Definition sdefn_ok (d : sdefn) : Prop :=
-  match d with
-  | SStruct nm fl _ | SReadonly nm fl _ => ident_ok nm /\ Forall (fun f => ident_ok (fst f) /\ ident_ok (snd f)) fl
-  | SMessage nm fl _ => ident_ok nm /\ Forall (fun f => idx_ok (fst f) /\ ident_ok (fst (snd f)) /\ ident_ok (snd (snd f))) fl /\ mfs_ok [] (map bmf fl)
-  | SEnum nm ml _ => ident_ok nm /\ Forall (fun m => ident_ok (fst m) /\ idx_ok (snd m)) ml /\ ems_ok (map bem ml)
-  end.
-Definition xel_of (d : sdefn) : xel :=
-  match d with
-  | SStruct nm fl k => (s_item nm fl, s_x nm fl, k)
-  | SReadonly nm fl k => (r_item nm fl, r_x nm fl, k)
-  | SMessage nm fl k => (m_item nm fl, m_x nm fl, k)
-  | SEnum nm ml k => (e_item nm ml, e_x nm ml, k)
-  end.
-Lemma xel_of_ok d : sdefn_ok d -> xel_ok (xel_of d).
-Proof.
-  destruct d as [nm fl k|nm fl k|nm fl k|nm ml k]; cbn [sdefn_ok xel_of xel_ok].
-  - intros [A B]. now apply s_item_ok.
-  - intros [A B]. now apply r_item_ok.
-  - intros (A & B & C). now apply m_item_ok.
-  - intros (A & B & C). now apply e_item_ok.
-Qed.
-
-(* the lexemes of the text, the File it states, its canonical text *)
-Definition schema_lexemes (dl : list sdefn) : list lexeme := xlex (map xel_of dl).
-Definition schema_file (dl : list sdefn) : file := gfile (map xe_el (map xel_of dl)) file0.
-Definition schema_canon (dl : list sdefn) : bytes := gctext (map xe_el (map xel_of dl)).
-
-Theorem schema_laws : forall dl lay tail,
-  Forall sdefn_ok dl -> map snd lay = schema_lexemes dl -> Forall (fun p => hws (fst p)) lay -> sep_ok lay -> hws tail ->
-  exists y, (exists s, format (render lay tail) = POk y s) /\ y = schema_canon dl /\
-            (exists s, format y = POk y s) /\
-            (exists s, read_file y false = POk (schema_file dl) s) /\
-            (exists s, read_file (render lay tail) false = POk (schema_file dl) s).
-Proof.
-  intros dl lay tail Hok. apply gen_laws. clear -Hok. induction Hok as [|d dl H _ IH]; cbn [map]; constructor; [now apply xel_of_ok|exact IH].
-Qed.
-
-(* what the File is, written out: each kind of definition in source order *)
-Lemma schema_file_spec dl :
-  structs (schema_file dl) = flat_map (fun d => match d with SStruct nm fl _ => [struct_of (ibytes nm) (map (fun f => (ibytes (fst f), ibytes (snd f))) fl)] | SReadonly nm fl _ => [struct_of_ro (ibytes nm) (map (fun f => (ibytes (fst f), ibytes (snd f))) fl)] | _ => [] end) dl /\
-  messages (schema_file dl) = flat_map (fun d => match d with SMessage nm fl _ => [message_of (ibytes nm) (map bmf fl)] | _ => [] end) dl /\
-  enums (schema_file dl) = flat_map (fun d => match d with SEnum nm ml _ => [enum_of (ibytes nm) (map bem ml)] | _ => [] end) dl /\
-  unions (schema_file dl) = [] /\ consts (schema_file dl) = [] /\ imports (schema_file dl) = [] /\ gopackage (schema_file dl) = [].
-Proof.
-  unfold schema_file.
-  assert (G : forall dl f,
-    structs (gfile (map xe_el (map xel_of dl)) f) = structs f ++ flat_map (fun d => match d with SStruct nm fl _ => [struct_of (ibytes nm) (map (fun f => (ibytes (fst f), ibytes (snd f))) fl)] | SReadonly nm fl _ => [struct_of_ro (ibytes nm) (map (fun f => (ibytes (fst f), ibytes (snd f))) fl)] | _ => [] end) dl /\
-    messages (gfile (map xe_el (map xel_of dl)) f) = messages f ++ flat_map (fun d => match d with SMessage nm fl _ => [message_of (ibytes nm) (map bmf fl)] | _ => [] end) dl /\
-    enums (gfile (map xe_el (map xel_of dl)) f) = enums f ++ flat_map (fun d => match d with SEnum nm ml _ => [enum_of (ibytes nm) (map bem ml)] | _ => [] end) dl /\
-    unions (gfile (map xe_el (map xel_of dl)) f) = unions f /\ consts (gfile (map xe_el (map xel_of dl)) f) = consts f /\
-    imports (gfile (map xe_el (map xel_of dl)) f) = imports f /\ gopackage (gfile (map xe_el (map xel_of dl)) f) = gopackage f).
-  { clear. induction dl as [|d dl IH]; intros f; [cbn; rewrite !app_nil_r; repeat split|].
-    cbn [map gfile fold_left flat_map]. destruct (IH (it_upd (fst (xe_el (xel_of d))) f)) as (A & B & C & D & E & F & G0).
-    unfold gfile in *. rewrite A, B, C, D, E, F, G0.
-    destruct d as [nm fl k|nm fl k|nm fl k|nm ml k]; cbn [xel_of xe_el fst snd s_item r_item m_item e_item it_upd add_struct add_message add_enum structs messages enums unions consts imports gopackage app];
-      rewrite <- ?app_assoc, ?app_nil_r; repeat split; reflexivity. }
-  destruct (G dl file0) as (A & B & C & D & E & F & G0). cbn [file0 structs messages enums unions consts imports gopackage app] in *. repeat split; assumption.
-Qed.
-
